@@ -7,7 +7,8 @@ from sa.astx import call_name, dotted, lincmp, lin_expect, src, walk_local
 from sa.effects import accesses, class_accesses
 from sa.selftest import Mutant, Silent
 from sa.source import methods
-from sa.props._lib_d import FALSY_NONNULL, Inliner, resolve_locals, undecided_tests
+from sa.astx import NotConst
+from sa.props._lib_d import expand_calls, peval, FALSY_NONNULL, Inliner, resolve_locals, undecided_tests, abstract_instance, returns_under, path_under, aliases
 from sa.props._lib_d import (NONNULL, call_nodes, calls_with, const_value_is, implied, is_self_attr, must_pass_under,
                              path_under, reach_under, self_assigns, slice_parts, succ_of)
 
@@ -43,6 +44,9 @@ RULE_KINDS = {
     # every truth assignment of the five state attributes the drained-buffer tail of doWrite branches on (3 x 2^4 = 48 rows: producer absent / registered / registered but falsy); completeness of that domain
     # is checked on each run: under a full assignment no test of the region is left undecided (undecided_tests), i.e. the tail reads nothing else
     "dowrite/table": "finite-exhaustive",
+    # the expression assigned to dataBuffer when it is re-based, evaluated on five (buffer, offset, pending chunks) samples - used when the value is not
+    # built by the recognised _concatenate(dataBuffer, offset, _tempDataBuffer) call
+    "dowrite/rebase-content/sampled": "bounded",
 }
 ASSUMPTIONS = [
     "startWriting/stopWriting/stopReading and writeSomeData do not modify the buffering attributes of the descriptor",
@@ -169,6 +173,23 @@ def _guard_after(g, n, good, bad, after):
     return implied(g, n, good, bad, after=after)
 
 
+_CONCAT_SAMPLES = [(b"abcdef", 2, [b"gh", b"i"]), (b"abc", 0, []), (b"abc", 3, [b"z"]), (b"", 0, [b"q", b"rs"]), (b"xy", 1, [b"", b"w"])]
+
+
+def _sampled_concat(expr, kbuf, koff, ktmp):
+    """True / a description of the first wrong value / None (not evaluable) for 'expr == buf[off:] + b"".join(tmp)' on the samples."""
+    for buf, off, tmp in _CONCAT_SAMPLES:
+        try:
+            val = peval(expr, {kbuf: buf, koff: off, ktmp: list(tmp)})
+        except NotConst:
+            return None
+        if isinstance(val, memoryview):
+            val = bytes(val)
+        if val != buf[off:] + b"".join(tmp):
+            return f"for dataBuffer={buf!r} offset={off} _tempDataBuffer={tmp!r} it is {val!r}, not {buf[off:] + b''.join(tmp)!r}"
+    return True
+
+
 def _presence_by_identity(ctx, mod, inl, classes):
     """Structural sibling agreement: an attribute that holds an optional FOREIGN object (assigned from a parameter somewhere, None elsewhere) has its
     presence decided by identity with None at every site of the classes - never by truthiness, which is the foreign object's own business."""
@@ -178,10 +199,16 @@ def _presence_by_identity(ctx, mod, inl, classes):
             params = {a.arg for a in m.args.args[1:]}
             for st in walk_local(m):
                 if isinstance(st, ast.Assign):
+                    pairs = []
                     for t in st.targets:
-                        if is_self_attr(t) and isinstance(st.value, ast.Name) and st.value.id in params:
+                        if isinstance(t, (ast.Tuple, ast.List)) and isinstance(st.value, (ast.Tuple, ast.List)) and len(t.elts) == len(st.value.elts):
+                            pairs.extend(zip(t.elts, st.value.elts))
+                        else:
+                            pairs.append((t, st.value))
+                    for t, v in pairs:
+                        if is_self_attr(t) and isinstance(v, ast.Name) and v.id in params:
                             foreign.setdefault(t.attr, set()).add("param")
-                        elif is_self_attr(t) and const_value_is(st.value, lambda v: v is None):
+                        elif is_self_attr(t) and const_value_is(v, lambda x: x is None):
                             foreign.setdefault(t.attr, set()).add("none")
         for k, v in __import__("sa.source", fromlist=["class_assigns"]).class_assigns(cls).items():
             if const_value_is(v, lambda x: x is None):
@@ -192,6 +219,15 @@ def _presence_by_identity(ctx, mod, inl, classes):
     for cls in classes:
         for name, m in methods(cls).items():
             q = QM + f"{cls.name}.{name}"
+            # a local that only ever holds a sample of the attribute (p = self.producer) stands for it: `if p:` is the same truthiness test
+            sampled = {n: a for a in optional for n in aliases(m, f"self.{a}")}
+
+            def held(o):
+                if is_self_attr(o) and o.attr in optional:
+                    return o.attr
+                if isinstance(o, ast.Name) and o.id in sampled:
+                    return sampled[o.id]
+                return None
             for x in walk_local(m):
                 operands = []
                 if isinstance(x, (ast.If, ast.While, ast.IfExp, ast.Assert)):
@@ -203,25 +239,33 @@ def _presence_by_identity(ctx, mod, inl, classes):
                 elif isinstance(x, ast.Call) and call_name(x) == "bool":
                     operands = list(x.args)
                 for o in operands:
-                    if is_self_attr(o) and o.attr in optional:
+                    if held(o):
+                        o = ast.Attribute(value=ast.Name(id="self"), attr=held(o))
                         nsites += 1
                         ctx.violation("presence/decided-by-identity", ctx.construct(q, x if not isinstance(x, (ast.If, ast.While)) else x.test),
                                       f"whether self.{o.attr} is set is decided by its truthiness here, while it is set / cleared with None and tested with "
                                       f"'is None' / 'is not None' everywhere else: a registered {o.attr} object that happens to be falsy (a queue-like producer "
                                       "with __len__ whose queue is empty) is treated as absent - never resumed, or the connection is closed over it")
-                if isinstance(x, ast.Compare) and len(x.ops) == 1 and is_self_attr(x.left) and x.left.attr in optional \
+                if isinstance(x, ast.Compare) and len(x.ops) == 1 and held(x.left) \
                         and const_value_is(x.comparators[0], lambda v: v is None):
                     nsites += 1
                     ctx.check(isinstance(x.ops[0], (ast.Is, ast.IsNot)), "presence/decided-by-identity", ctx.construct(q, x),
-                              f"self.{x.left.attr} is compared with None by ==/!= (the foreign object's __eq__), not by identity")
+                              f"self.{held(x.left)} is compared with None by ==/!= (the foreign object's __eq__), not by identity")
     ctx.floor("presence/decided-by-identity", nsites, 3)
 
 
 def check(ctx):
+    from sa.props._lib_d import Guarded
+    g_ = Guarded(ctx, RULE_KINDS, lambda: g_.__dict__.get('_inl14', []))
+    _check(g_)
+
+
+def _check(ctx):
     mod = ctx.mod(ABS)
     fd = ctx.cls(ABS, "FileDescriptor")
     cm = ctx.cls(ABS, "_ConsumerMixin")
-    inl = Inliner(mod, ["FileDescriptor", "_ConsumerMixin"], KNOWN)
+    inl = Inliner(mod, ["FileDescriptor", "_ConsumerMixin"], KNOWN, extended=True)
+    ctx.__dict__["_inl14"] = [inl]
 
     def view(qual):
         return inl.view(ctx.func(ABS, qual))
@@ -339,15 +383,17 @@ def check(ctx):
             ctx.check(w is None, "dowrite/advance-by-accepted", c + " | after send", "offset advances on a path that did not call writeSomeData",
                       witness=g.describe(w))
             rv = src(st.value)
-            ctx.check(g.guarded(a, lambda e: isinstance(e, ast.Call) and call_name(e) == "isinstance" and e.args and src(e.args[0]) == rv
-                                and "Exception" in src(e.args[1]), False),
-                      "dowrite/no-advance-on-error", c, "offset is advanced although writeSomeData returned an exception object")
-            # the error result is returned to the reactor
-            rets = [n.id for n in g.nodes if n.kind == "stmt" and isinstance(n.ast, ast.Return) and n.ast.value is not None and src(n.ast.value) == rv]
-            w = must_pass_under(g, {f"isinstance({rv}, Exception)": True}, rets, srcs=[s for n, _ in sends for s in succ_of(g, n, None)])
-            ctx.check(bool(rets) and w is None, "dowrite/error-returned", q + " | <error result of writeSomeData>",
+            # evaluated, not matched: the error object is followed from the send to wherever the function ends
+            err = abstract_instance("<exception object returned by writeSomeData>", {"Exception", "BaseException"})
+            after_send = [s for n, _ in sends for s in succ_of(g, n, None)]
+            facts_err = {rv: err}
+            ctx.check(a not in reach_under(g, facts_err, srcs=after_send), "dowrite/no-advance-on-error", c,
+                      "offset is advanced although writeSomeData returned an exception object",
+                      witness=g.describe(path_under(g, facts_err, [a], srcs=after_send)))
+            ends = returns_under(g, facts_err, srcs=after_send)
+            ctx.check(bool(ends) and all(v is err for _, v in ends), "dowrite/error-returned", q + " | <error result of writeSomeData>",
                       "an exception object returned by writeSomeData is not returned to the reactor (connection loss is not reported)",
-                      witness=g.describe(w))
+                      witness="; ".join(f"line {g.node(n).lineno}: returns {'an undetermined value' if v is NotConst else repr(v)}" for n, v in ends if v is not err))
 
         # re-basing dataBuffer
         zero_off = self_assigns(g, "offset", lambda v: const_value_is(v, lambda x: x == 0 and x is not False))
@@ -367,8 +413,19 @@ def check(ctx):
             else:
                 ok = (isinstance(v, ast.Call) and call_name(v) == "_concatenate"
                       and [src(x) for x in v.args] == ["self.dataBuffer", "self.offset", "self._tempDataBuffer"])
-                ctx.check(ok, "dowrite/rebase-content", c,
-                          "the new dataBuffer is not 'unsent rest of dataBuffer (from offset) followed by _tempDataBuffer'")
+                wrong_args = isinstance(v, ast.Call) and call_name(v) == "_concatenate" and not ok
+                if ok or wrong_args:
+                    ctx.check(ok, "dowrite/rebase-content", c,
+                              "the new dataBuffer is not 'unsent rest of dataBuffer (from offset) followed by _tempDataBuffer'")
+                else:
+                    ctx.note("dowrite/rebase-content: the new dataBuffer is not built by _concatenate(dataBuffer, offset, _tempDataBuffer); its value is "
+                             "decided by dowrite/rebase-content/sampled")
+                val = _sampled_concat(expand_calls(mod, v), "self.dataBuffer", "self.offset", "self._tempDataBuffer")
+                if val is None:
+                    ctx.note("dowrite/rebase-content/sampled: the expression assigned to dataBuffer could not be evaluated: " + src(v)[:120])
+                else:
+                    ctx.check(val is True, "dowrite/rebase-content/sampled", c,
+                              "the new dataBuffer is not 'unsent rest of dataBuffer (from offset) followed by _tempDataBuffer': " + str(val))
         send_ids = [n for n, _ in sends]
         for z in zero_off:
             c = ctx.construct(q, g.node(z).ast)
@@ -487,19 +544,34 @@ def check(ctx):
 
     with ctx.section("_concatenate"):
         # _concatenate: old-before-new order
-        cf = ctx.func(ABS, "_concatenate")
-        params = [a.arg for a in cf.args.args]
-        rets = [x for x in walk_local(cf) if isinstance(x, ast.Return)]
-        ok = False
-        if len(params) == 3 and len(rets) == 1 and isinstance(rets[0].value, ast.Call) and isinstance(rets[0].value.func, ast.Attribute) \
-                and rets[0].value.func.attr == "join" and const_value_is(rets[0].value.func.value, lambda x: x == b"") and len(rets[0].value.args) == 1:
-            a = rets[0].value.args[0]
-            if isinstance(a, ast.BinOp) and isinstance(a.op, ast.Add) and isinstance(a.left, (ast.List, ast.Tuple)) and len(a.left.elts) == 1:
-                sp = slice_parts(a.left.elts[0])
-                ok = bool(sp and params[0] in src(sp[0]) and sp[1] is not None and src(sp[1]) == params[1] and sp[2] is None
-                          and src(a.right) == params[2])
-        ctx.check(ok, "concatenate/order", QM + "_concatenate",
-                  "_concatenate does not return 'bObj[offset:] followed by the elements of bArray' (old bytes before new, each once)")
+        cf = next((n for n in mod.tree.body if isinstance(n, ast.FunctionDef) and n.name == "_concatenate"), None)
+        if cf is None:
+            ctx.note("concatenate/order: no module-level _concatenate helper; the order of old and new bytes is decided where dataBuffer is re-based "
+                     "(dowrite/rebase-content/sampled)")
+        else:
+            ctx.functions.add(f"{ABS}:_concatenate")
+            params = [a.arg for a in cf.args.args]
+            rets = [x for x in walk_local(cf) if isinstance(x, ast.Return)]
+            ok = False
+            if len(params) == 3 and len(rets) == 1 and isinstance(rets[0].value, ast.Call) and isinstance(rets[0].value.func, ast.Attribute) \
+                    and rets[0].value.func.attr == "join" and const_value_is(rets[0].value.func.value, lambda x: x == b"") and len(rets[0].value.args) == 1:
+                a = rets[0].value.args[0]
+                if isinstance(a, ast.BinOp) and isinstance(a.op, ast.Add) and isinstance(a.left, (ast.List, ast.Tuple)) and len(a.left.elts) == 1:
+                    sp = slice_parts(a.left.elts[0])
+                    ok = bool(sp and params[0] in src(sp[0]) and sp[1] is not None and src(sp[1]) == params[1] and sp[2] is None
+                              and src(a.right) == params[2])
+            val = None
+            if len(params) == 3:
+                call = ast.parse(f"_concatenate({params[0]}, {params[1]}, {params[2]})", mode="eval").body
+                val = _sampled_concat(expand_calls(mod, call), *params)
+            if ok or val is True:
+                ctx.ok("concatenate/order", QM + "_concatenate")
+            elif val is None:
+                ctx.note("concatenate/order: the body of _concatenate is neither the recognised join expression nor evaluable; clause left to "
+                         "dowrite/rebase-content/sampled")
+            else:
+                ctx.violation("concatenate/order", QM + "_concatenate",
+                              "_concatenate does not return 'bObj[offset:] followed by the elements of bArray' (old bytes before new, each once): " + str(val))
 
     with ctx.section("producer pause flag"):
         # ---- (e) producer flag coupling, fullness, pausing ----------------------------------------------------------------
@@ -828,10 +900,10 @@ SILENT = [
            "        if self.disconnected:\n            producer.stopProducing()\n            return\n        self.producer, self.streamingProducer = producer, streaming\n        if streaming:\n            return\n        producer.resumeProducing()\n"),
     Silent("connection-lost-producer-release-in-helper-shared", ABS,
            "        if self.producer is not None:\n            self.producer.stopProducing()\n            self.producer = None\n        self.stopReading()\n        self.stopWriting()\n",
-           "        held = self._forgetProducer()\n        if held is not None:\n            held.stopProducing()\n        self.stopReading()\n        self.stopWriting()\n",
+           "        held = self.producer\n        if held is not None:\n            held.stopProducing()\n            self._forgetProducer()\n        self.stopReading()\n        self.stopWriting()\n",
            more=[(ABS, "        self.producer = None\n        if self.connected and self.disconnecting:\n            self.startWriting()\n",
                   "        self._forgetProducer()\n        if self.connected and self.disconnecting:\n            self.startWriting()\n"),
-                 (ABS, "    def unregisterProducer(self):\n", "    def _forgetProducer(self):\n        held, self.producer = self.producer, None\n        return held\n\n    def unregisterProducer(self):\n")]),
+                 (ABS, "    def unregisterProducer(self):\n", "    def _forgetProducer(self):\n        taken, self.producer = self.producer, None\n        return taken\n\n    def unregisterProducer(self):\n")]),
     Silent("unregister-guard-nested", ABS, "        if self.connected and self.disconnecting:\n            self.startWriting()\n\n\n@implementer(interfaces.ILoggingContext)",
            "        if self.connected:\n            if self.disconnecting:\n                self.startWriting()\n\n\n@implementer(interfaces.ILoggingContext)"),
 ]
